@@ -30,6 +30,8 @@ func main() {
 			"C03": {Run: runC03, Modes: []string{"any"}},
 			"C05": {Run: runC05, Modes: []string{"multi_split", "every_split", "multi_split", "dst_minimum", "multi_split"}},
 			"C07": {Run: runC07, Modes: []string{"valid"}},
+			"C08": {Run: runC08, Modes: []string{"histories"}},
+			"C09": {Run: runC09, Modes: []string{"variants"}},
 		},
 	})
 }
